@@ -16,14 +16,14 @@ import (
 )
 
 type KnownFinding struct {
-	Property    string `json:"property"`
-	Obligation  string `json:"obligation"`
-	Status      string `json:"status"` // open | fixed
-	Commit      string `json:"commit,omitempty"`
-	What        string `json:"what"`
-	Witness     string `json:"witness,omitempty"`
-	Residual    string `json:"residual,omitempty"`
-	ReplayTest  string `json:"replay_test,omitempty"` // stand-in/replay that must still confirm the witness
+	Property   string `json:"property"`
+	Obligation string `json:"obligation"`
+	Status     string `json:"status"` // open | fixed
+	Commit     string `json:"commit,omitempty"`
+	What       string `json:"what"`
+	Witness    string `json:"witness,omitempty"`
+	Residual   string `json:"residual,omitempty"`
+	ReplayTest string `json:"replay_test,omitempty"` // stand-in/replay that must still confirm the witness
 }
 
 type KnownFindings struct {
@@ -31,11 +31,11 @@ type KnownFindings struct {
 }
 
 type StandIn struct {
-	Name    string   `json:"name"`
-	Cmd     []string `json:"cmd"`
-	Tier    string   `json:"tier"` // quick | thorough | both
-	Bound   string   `json:"bound"`
-	Label   string   `json:"label"` // bounded | exhaustive
+	Name  string   `json:"name"`
+	Cmd   []string `json:"cmd"`
+	Tier  string   `json:"tier"` // quick | thorough | both
+	Bound string   `json:"bound"`
+	Label string   `json:"label"` // bounded | exhaustive
 }
 
 type ClaimFile struct {
@@ -46,6 +46,7 @@ type ClaimFile struct {
 	StandIns       []StandIn `json:"standins,omitempty"`
 	Assumptions    []string  `json:"assumptions,omitempty"`
 	Undecided      []string  `json:"attempted_undecided,omitempty"`
+	TimeoutS       int       `json:"timeout_s,omitempty"` // per-query solver timeout of the quick tier (default 10)
 }
 
 type Evidence struct {
@@ -127,6 +128,9 @@ func CmdCheck(args []string) int {
 	mirrorNote := checkMirror(*repo, *verif)
 	smoke := *tier == "thorough"
 	timeout := 10
+	if claim.TimeoutS > 0 {
+		timeout = claim.TimeoutS
+	}
 	if *tier == "thorough" {
 		timeout = 60
 	}
@@ -311,24 +315,24 @@ func CmdCheck(args []string) int {
 	}
 	ev := Evidence{PropertyID: claim.Property, Tier: *tier, Seed: seed, Level: "proof", Assumptions: assumptions, Violations: violations}
 	ev.Coverage = map[string]any{
-		"obligations":           len(allObls) - len(knownPrinted),
-		"discharged":            discharged,
-		"checker_cmd":           "bin/kv check --property " + claim.Property + " --tier " + *tier + "  (VC generation over go/ssa of /repo's working tree; z3-new 5.1.0 | z3 4.8.12 | cvc5 1.0.3)",
-		"trusted_base":          tb,
+		"obligations":              len(allObls) - len(knownPrinted),
+		"discharged":               discharged,
+		"checker_cmd":              "bin/kv check --property " + claim.Property + " --tier " + *tier + "  (VC generation over go/ssa of /repo's working tree; z3-new 5.1.0 | z3 4.8.12 | cvc5 1.0.3)",
+		"trusted_base":             tb,
 		"functions_under_contract": funcs,
-		"discharged_by_solver":  bySolver,
-		"solver_seconds":        round3(solverSecs),
-		"opaque_calls":          op,
-		"inlined_callees":       inl,
-		"samples":               samples,
-		"known_findings_printed": knownPrinted,
-		"smoke_provable_false":  smokeBad,
-		"smoke_checked":         len(smokeObls),
-		"standins":              standinReports,
-		"warnings":              uniq(warnings),
-		"attempted_undecided":   claim.Undecided,
-		"contracts_read_from":   filepath.Join(*repo, "**/contracts_verif.go") + mirrorNote,
-		"per_query_timeout_s":   timeout,
+		"discharged_by_solver":     bySolver,
+		"solver_seconds":           round3(solverSecs),
+		"opaque_calls":             op,
+		"inlined_callees":          inl,
+		"samples":                  samples,
+		"known_findings_printed":   knownPrinted,
+		"smoke_provable_false":     smokeBad,
+		"smoke_checked":            len(smokeObls),
+		"standins":                 standinReports,
+		"warnings":                 uniq(warnings),
+		"attempted_undecided":      claim.Undecided,
+		"contracts_read_from":      filepath.Join(*repo, "**/contracts_verif.go") + mirrorNote,
+		"per_query_timeout_s":      timeout,
 	}
 	ev.WallS = round3(time.Since(t0).Seconds())
 	b, _ := json.MarshalIndent(ev, "", " ")
@@ -394,5 +398,3 @@ func runStandIn(si StandIn, repo, verif string, seed int) (map[string]any, bool)
 	rep["output"] = strings.TrimSpace(o)
 	return rep, err == nil
 }
-
-
